@@ -58,6 +58,7 @@ func init() {
 				return err
 			}
 			c.defStringList(fn+"Ifs", c.ifConds(dd, fd))
+			c.defStringList(fn+"Returns", c.returnsOf(dd, fd))
 			c.defStringList(fn+"Calls", c.callsMatching(dd, fd, "EqualFold", "fs.Iter", "filepath.Dir", "filepath.Base"))
 			nbreak := 0
 			ast.Inspect(fd, func(x ast.Node) bool {
